@@ -218,8 +218,25 @@ pub fn replay(args: &[String]) -> i32 {
         }
         let v: Value = serde_json::from_str(&line).expect("json");
         let mut l = JobList::new();
+        let mut broken = false;
         for op in v["h"].as_array().unwrap() {
-            apply(&mut l, op);
+            // a panic while rebuilding the state is recorded as a step of its own
+            let (rec, next) = step_record(&l, op, &pids);
+            match next {
+                Some(l2) => l = l2,
+                None => {
+                    let key = format!("{}|{}", rec["pre"], rec["op"]);
+                    if seen.insert(key) {
+                        writeln!(out, "{rec}").unwrap();
+                        written += 1;
+                    }
+                    broken = true;
+                    break;
+                }
+            }
+        }
+        if broken {
+            continue;
         }
         states += 1;
         for op in &ops {
